@@ -70,7 +70,7 @@ Fixpoint rename (members : list N) (new : N) (t : ty) : ty :=
 (* ModelPtr.__eq__: structural comparison of the target models' fields (identical targets compare equal
    without recursion); fuel exhaustion stands for RecursionError and falls back to identity *)
 Fixpoint ptr_eq_g (g : graph) (fuel : nat) (i j : N) : bool :=
-  N.eqb i j ||
+  if N.eqb i j then true else           (* written with if: vm_compute is call-by-value, orb would not short-circuit *)
   match fuel with
   | O => false
   | S f => match fields_of g i, fields_of g j with
@@ -78,7 +78,7 @@ Fixpoint ptr_eq_g (g : graph) (fuel : nat) (i j : N) : bool :=
            | _, _ => false
            end
   end.
-Definition PTR_FUEL : nat := 12.
+Definition PTR_FUEL : nat := 6.
 
 (* utils.distinct_words over an already ordered list: the substring-minimal words, each once *)
 Fixpoint is_prefix (a b : str) : bool :=
